@@ -144,6 +144,42 @@ def _char_in(ch, text):
     return ch in text
 
 
+def pw_z3(v, pieces, otherwise):
+    """z3 term of pw_map over the z3 integer term v"""
+    import z3
+    e = otherwise[0] * v + otherwise[1]
+    if isinstance(e, int):
+        e = z3.IntVal(e)
+    for lo, hi, mul, add in reversed(pieces):
+        e = z3.If(z3.And(v >= lo, v <= hi), mul * v + add, e)
+    return e
+
+
+def pw_map(x, pieces, otherwise=(1, 0)):
+    """piecewise-linear map of an int: mul*x + add on the piece (lo, hi, mul, add) containing x, else
+    otherwise[0]*x + otherwise[1].  A symbolic x gives ONE if-then-else term: no fork per piece, and
+    z3 decides such terms far faster than floor-division encodings of the same table (measured: base64
+    digit round trip 1.4 s -> 0.03 s).  Used for digit <-> character tables and single-byte replace."""
+    if _is_conc(x):
+        for lo, hi, mul, add in pieces:
+            if lo <= x <= hi:
+                return mul * x + add
+        return otherwise[0] * x + otherwise[1]
+    from crosshair.libimpl.builtinslib import SymbolicInt
+    from crosshair.tracers import NoTracing
+    with NoTracing():
+        if not isinstance(x, SymbolicInt):
+            x = None
+        else:
+            return SymbolicInt(pw_z3(x.var, pieces, otherwise))
+    raise TypeError("pw_map: unexpected symbolic integer type")
+
+
+def _len_conc(s):
+    """True when len(s) is a plain int (the text may still have symbolic characters)"""
+    return _is_conc(len(s))
+
+
 def _is_byteslike(x):
     return isinstance(x, (_LBase, bytes, bytearray, memoryview))
 
@@ -295,7 +331,13 @@ class _LBase:
         return out
 
     def replace(self, a, b, *n):
-        return self._new(self.s.replace(_s(a), _s(b), *n))
+        a, b = _s(a), _s(b)
+        if (not n and len(a) == 1 and len(b) == 1 and _is_conc(a) and _is_conc(b) and not _is_conc(self.s)
+                and _len_conc(self.s) and len(self.s) <= 64):
+            # byte-for-byte substitution: one if-then-else term per position instead of a fork
+            oa, ob = ord(a), ord(b)
+            return self._new("".join([chr(pw_map(ord(c), [(oa, oa, 0, ob)])) for c in self.s]))
+        return self._new(self.s.replace(a, b, *n))
 
     def strip(self, chars=None):
         return self._new(self.s.strip(_WS if chars is None else _s(chars)))
@@ -608,8 +650,8 @@ CODECS = {}
 
 
 def _hexdigit(d, upper):
-    """ASCII code of hex digit d (0..15) by arithmetic only (no branch on a symbolic d)"""
-    return 48 + d + ((d + 6) // 16) * (7 if upper else 39)
+    """ASCII code of hex digit d (0..15), no branch on a symbolic d"""
+    return pw_map(d, [(0, 9, 1, 48), (10, 15, 1, 55 if upper else 87)], (0, 63))
 
 
 def fmt_int(v, spec):
@@ -1192,27 +1234,67 @@ def _bitwise_arith(kind, a, b, width):
     return r
 
 
+_BITINFO = {}      # id(symbolic int) -> (the object, mask of the bits that can possibly be set)
+
+
+def _obj_id(x):
+    tr = _sys.modules.get("crosshair.tracers")
+    if tr is None:
+        return id(x)
+    with tr.NoTracing():
+        return id(x)
+
+
+def note_bits(x, mask):
+    """record that the non-negative symbolic int x has no bits set outside `mask` (derived from how it
+    was computed: `& mask`, shifts, ord() of a byte); lets `|` of bit-disjoint values become `+`"""
+    if not _is_conc(x):
+        if len(_BITINFO) > 20000:
+            _BITINFO.clear()
+        _BITINFO[_obj_id(x)] = (x, mask)
+    return x
+
+
+def _known_bits(x):
+    if _is_conc(x):
+        return x if x >= 0 else None
+    e = _BITINFO.get(_obj_id(x))
+    if e is not None and e[0] is x:
+        return e[1]
+    return None
+
+
 def _bitop(kind, a, b, real):
     if not (_plain_int(a) and _plain_int(b)):
         return real(a, b)
     ca, cb = _is_conc(a), _is_conc(b)
     if ca and cb:
         return real(a, b)
+    ka, kb = _known_bits(a), _known_bits(b)
+    if kind != "and" and ka is not None and kb is not None and (ka & kb) == 0:
+        return note_bits(a + b, ka | kb)          # bit-disjoint operands: | and ^ are +
+    if kind == "and" and ka is not None and kb is not None and (ka & kb) == 0:
+        return 0
     if ca:
-        a, b, ca, cb = b, a, cb, ca
+        a, b, ca, cb, ka, kb = b, a, cb, ca, kb, ka
     if cb and b >= 0:
         if kind == "and":
-            return _and_mask(a, b)
+            return note_bits(_and_mask(a, b), b if ka is None else (b & ka))
         if b == 0:
             return a
         if kind == "or":
-            return a + b - _and_mask(a, b)
-        return a + b - 2 * _and_mask(a, b)
+            r = a + b - _and_mask(a, b)
+        else:
+            r = a + b - 2 * _and_mask(a, b)
+        return r if ka is None else note_bits(r, ka | b)
     if not cb:
         for width in (8, 16, 32):
             lim = 1 << width
             if 0 <= a < lim and 0 <= b < lim:
-                return _bitwise_arith(kind, a, b, width)
+                r = _bitwise_arith(kind, a, b, width)
+                if ka is not None and kb is not None:
+                    note_bits(r, (ka & kb) if kind == "and" else (ka | kb))
+                return r
     return real(a, b)
 
 
@@ -1230,13 +1312,17 @@ def l_bitxor(a, b):
 
 def l_shl(a, n):
     if _plain_int(a) and _plain_int(n) and _is_conc(n) and n >= 0 and not _is_conc(a):
-        return a * (1 << n)
+        k = _known_bits(a)
+        r = a * (1 << n)
+        return r if k is None else note_bits(r, k << n)
     return a << n
 
 
 def l_shr(a, n):
     if _plain_int(a) and _plain_int(n) and _is_conc(n) and n >= 0 and not _is_conc(a):
-        return a // (1 << n)
+        k = _known_bits(a)
+        r = a // (1 << n)
+        return r if k is None else note_bits(r, k >> n)
     return a >> n
 
 
@@ -1332,6 +1418,18 @@ def selftest():
             assert _fmt_int_arith(v, 10 if spec[-1] == "d" else 16, spec[-1] == "X", int(spec[:-1] or 0),
                                   spec[0] == "0") == format(v, spec), (v, spec)
             n += 1
+    try:
+        import z3
+    except ImportError:
+        z3 = None
+    if z3 is not None:
+        zv = z3.Int("v")
+        for pieces, other in [([(0, 9, 1, 48), (10, 15, 1, 55)], (0, 63)), ([(47, 47, 0, 44)], (1, 0)),
+                              ([(65, 90, 1, -65), (97, 122, 1, -71), (48, 57, 1, 4)], (0, -1))]:
+            term = pw_z3(zv, pieces, other)
+            for x in range(-3, 260):
+                assert z3.simplify(z3.substitute(term, (zv, z3.IntVal(x)))).as_long() == pw_map(x, pieces, other)
+                n += 1
     assert l_fstr("+", l_fval(171, -1, "02X"), "z", l_fval("q", -1, ""), l_fval(5, 114, "")) == f"+{171:02X}z{'q'}{5!r}"
     assert (LBytes("a") in LBytes("xyza")) and not (LBytes("b") in LBytes("xyza")) and (LBytes("za") in LBytes("xyza"))
     n += 2
